@@ -1373,6 +1373,46 @@ func isEmptySliceVal(v ssa.Value) bool {
 	return false
 }
 
+// emptyOnEdge: the value ph receives through its k-th edge is an empty slice there: the nil constant; a value whose
+// emptiness test lies on every path to that predecessor, on its empty side (`if m = f(); len(m) != 0 { break }` leaves m
+// empty at the loop's latch); or a φ that is empty on every one of its own edges
+func emptyOnEdge(ph *ssa.Phi, k, d int) bool {
+	if d > 4 || k >= len(ph.Edges) || k >= len(ph.Block().Preds) {
+		return false
+	}
+	v := ph.Edges[k]
+	if isEmptySliceVal(v) {
+		return true
+	}
+	fn := ph.Parent()
+	pred := ph.Block().Preds[k]
+	for _, b := range fn.Blocks {
+		iff := ifOf(b)
+		if iff == nil {
+			continue
+		}
+		if _, emp, ok := emptinessEdgesOf(iff, v); ok {
+			if vi, isInstr := v.(ssa.Instruction); isInstr && (vi.Block() == b || vi.Block().Dominates(b)) {
+				if (emp.To == pred && len(pred.Preds) == 1) || mustPassEdges(fn, pred, emp) || (b == pred && emp.To == ph.Block() && b.Succs[0] != b.Succs[1]) {
+					return true
+				}
+			}
+		}
+	}
+	if inner, ok := stripSliceConv(v).(*ssa.Phi); ok && inner != ph {
+		for j := range inner.Edges {
+			if inner.Edges[j] == ssa.Value(inner) || inner.Edges[j] == ssa.Value(ph) {
+				continue
+			}
+			if !emptyOnEdge(inner, j, d+1) {
+				return false
+			}
+		}
+		return true
+	}
+	return false
+}
+
 func (p *relProver) submatchPairs(m, re ssa.Value, d int) bool {
 	if d > 3 {
 		return false
@@ -1386,7 +1426,7 @@ func (p *relProver) submatchPairs(m, re ssa.Value, d int) bool {
 	}
 	rp, rePhi := re.(*ssa.Phi)
 	for k, me := range mp.Edges {
-		if isEmptySliceVal(me) {
+		if emptyOnEdge(mp, k, 0) {
 			continue // len 0 on that path: no index below it
 		}
 		rk := re
@@ -1416,7 +1456,7 @@ func (p *relProver) namesPairs(n, m ssa.Value, d int) bool {
 		return false
 	}
 	for k := range np.Edges {
-		if isEmptySliceVal(mp.Edges[k]) {
+		if emptyOnEdge(mp, k, 0) {
 			continue
 		}
 		if !p.namesPairs(np.Edges[k], mp.Edges[k], d+1) {
